@@ -170,6 +170,54 @@ theorem C12_nested_vector_roundtrip {E : Elem T H} (hE : CodecOK E) {k : Nat}
       = some xss :=
   C12_roundtrip_items_fixed (C12_nested_vector_codecOK hE hk N hN lh ph) rfl M xss hM
 
+/-! ## An inner `Vector<T, N>` of variable-size items as element -/
+
+/-- the values of an inner `Vector<T, N>` of variable-size items used as an element. -/
+def NestedVecVar (E : Elem T H) (N : Nat) : Type :=
+  {xs : List T // xs.length = N ∧ (sszEncode E xs).length < 2 ^ 32}
+
+/-- `Vector::<T, N>::from_ssz_bytes` for variable-size `T` as the element decoder. -/
+def nestedVectorVarDec (E : Elem T H) (N : Nat) (bs : List UInt8) : Option (NestedVecVar E N) :=
+  match sszDecodeItems E N bs with
+  | none => none
+  | some xs =>
+    if h : xs.length = N ∧ (sszEncode E xs).length < 2 ^ 32 then some ⟨xs, h⟩ else none
+
+/-- an inner `Vector<T, N>` over variable-size `T`: itself variable size. -/
+def nestedVectorVarElem (E : Elem T H) (N : Nat) (leafHash : NestedVecVar E N → H)
+    (packHash : List (NestedVecVar E N) → H) : Elem (NestedVecVar E N) H where
+  pf := none
+  leafHash := leafHash
+  packHash := packHash
+  fixedLen := none
+  enc := fun x => sszEncode E x.1
+  dec := nestedVectorVarDec E N
+
+/-- **C12 (nesting, vectors of variable-size items)**: `Vector<List<…>, N>` as an element. -/
+theorem C12_nested_vector_var_codecOK {E : Elem T H} (hE : CodecOK E) (N : Nat)
+    (lh : NestedVecVar E N → H) (ph : List (NestedVecVar E N) → H) :
+    CodecOK (nestedVectorVarElem E N lh ph) where
+  dec_enc := by
+    intro x
+    obtain ⟨xs, hx⟩ := x
+    have hrt := C12_roundtrip_items hE N xs (by omega) hx.2
+    simp only [nestedVectorVarElem, nestedVectorVarDec, hrt]
+    rw [dif_pos hx]
+  enc_dec := by
+    intro bs x h
+    simp only [nestedVectorVarElem, nestedVectorVarDec] at h ⊢
+    cases hd : sszDecodeItems E N bs with
+    | none => rw [hd] at h; cases h
+    | some xs =>
+      rw [hd] at h
+      simp only at h
+      split at h
+      · cases h
+        exact (C12_strict hE N bs xs hd).1
+      · cases h
+  fixed_len := by intro k x h; simp [nestedVectorVarElem] at h
+  fixed_pos := by intro k h; simp [nestedVectorVarElem] at h
+
 /-! ## Non-vacuity: concrete nested kinds over the example codecs of `Ssz.lean` -/
 
 /-- `List<List<[u8;2], 3>, 2>` over the fixed-size example codec: a concrete value, its codec
